@@ -47,7 +47,7 @@ def _kw_of_line(t, i):
     return t[start:i + 20].strip().split(" ")[0][:20]
 
 
-def check_normal_form(d0, o, case, fresh_printer=False):
+def check_normal_form(d0, o, case, fresh_printer=False, between=None):
     W = env.Workers.get()
     try:
         t = W.dumps(copy.deepcopy(d0), **o)
@@ -68,7 +68,21 @@ def check_normal_form(d0, o, case, fresh_printer=False):
         return [Discrepancy(bucket("reload", o, type(e).__name__), f"second text rejected: {e!s:.120}", case)]
     for loc, msg in refdict.equal_dicts(d, d2):
         return [Discrepancy(bucket("content", o, loc.split("/")[-1]), f"loads(t) != loads(dumps(loads(t))) at {loc}: {msg}", case)]
-    # determinism: a fresh printer object on an equal dictionary
+    # determinism: a fresh printer object on an equal dictionary - also when other work was done in between
+    # (a version-aware validation or create() of some type: "the same dictionary and options always produce the same text")
+    if between:
+        import mappyfile
+
+        try:
+            if between[0] == "validate":
+                root = (d[0] if isinstance(d, list) else d)
+                W.Validator().validate(copy.deepcopy(root), schema_name=root["__type__"], version=between[1])
+                if root["__type__"] == "map":
+                    mappyfile.validate(copy.deepcopy(root), version=between[1])
+            else:
+                mappyfile.create(between[1], between[2])
+        except Exception:
+            pass   # (what these calls return or raise is C07 / C09 / C19's business)
     t3 = W.PrettyPrinter(**o).pprint(copy.deepcopy(d))
     if t3 != t:
         return [Discrepancy(bucket("nondeterministic", o, ""), f"same dictionary and options, different text {first_diff(t, t3)}", case)]
@@ -130,7 +144,12 @@ def search(acc: Acc, tier, shard, nshards):
             o = options.draw(ch, quotes=quotes)
             acc.case([doc, optkey(o)], nt, sample={"text": text[:700], "options": o} if len(text) > 150 else None)
             acc.cls("opt:" + optkey(o)[2:])
-            out += check_normal_form(d, o, {"text": text, "options": o})
+            between = None
+            if ch.chance(1, 3):
+                v = ch.choice([5.0, 6.0, 7.0, 7.6, 8.0, 8.2])
+                between = ["validate", v] if ch.bool() else ["create", ch.choice(["map", "layer", "class", "label", "style", "web"]), v]
+                acc.cls("between:" + between[0])
+            out += check_normal_form(d, o, {"text": text, "options": o, "between": between}, between=between)
         return out
 
     hyp_search(acc, ID, "documents", shard, n, body, tier)
@@ -183,4 +202,4 @@ def second_interpreter(acc, n):
 def replay(case):
     W = env.Workers.get()
     text = corpus.read(os.path.join(env.REPO, case["file"])) if "file" in case else case["text"]
-    return check_normal_form(W.loads(text), case["options"], case)
+    return check_normal_form(W.loads(text), case["options"], case, between=case.get("between"))
